@@ -74,7 +74,19 @@ def run_chunk(args):
                     h2[k]["fault"] = j
                     queue.append({"cls": cls, "cfg": cfg, "hist": h2})
         else:
-            fails, _o = L.run_history(uni, cls, cfg, hist)
+            nchk = [] if job.get("faults_n") else None
+            fails, _o = L.run_history(uni, cls, cfg, hist, checks=nchk)
+            if any(d.get("fault") is not None for d in hist):
+                res["faulted"] += 1
+            if job.get("faults_n") and len(nchk) == len(hist):
+                # C17 on the classes without a model: the positions come from counting the checks of the un-faulted run
+                pos = [(k, j) for k, n_ in enumerate(nchk) for j in range(n_)]
+                if job["faults_n"] != "all" and len(pos) > job["faults_n"]:
+                    pos = rng.sample(pos, job["faults_n"])
+                for (k, j) in pos:
+                    h2 = [dict(d) for d in hist]
+                    h2[k]["fault"] = j
+                    queue.append({"cls": cls, "cfg": cfg, "hist": h2})
         metas.append((cls, cfg, hist))
         if fails:
             res["fails"].append({"cls": cls, "cfg": cfg, "hist": hist, "fails": [list(f) for f in fails[:3]]})
